@@ -294,6 +294,9 @@ pub fn run(ctx: &Ctx) {
     }
     run_proptest(ctx, "random-lists", PtCfg::new(ctx.lanes, ctx.tier.pick(400, 8000)), || case_strategy(ctx.tier.pick(400, 3000)), check_case);
     run_proptest(ctx, "regular-compressible-lists", PtCfg::new(ctx.lanes, ctx.tier.pick(60, 1500)), || regular_strategy(ctx.tier.pick(3000, 30_000)), check_case);
+    // one list with more than 2^16 entries in every tier
+    let wide = vec![ListCase { ds: (0..70_000u32).map(|i| EDelta { gap: u64::from(i % 3 == 0), run: 1 + (i % 2), len: 1 + (i % 300), omode: [0u8, 0, 1][(i % 3) as usize], off: u64::from(i) * 1000 }).collect(), codec: 1 + (ctx.seed % 4) as u8, asyncw: ctx.seed % 2 == 1, params: codec::Params::default() }];
+    crate::engine::run_list(ctx, "list-over-65536-entries", &wide, check_case);
     run_proptest(ctx, "random-big-lists", PtCfg { lanes: ctx.lanes, cases: ctx.tier.pick(2, 12), max_shrink: 64 }, || big_strategy(ctx.tier.pick(40_000, 100_000)), check_case);
     for c in ["offset-elided", "offset-explicit-after-0", "offset-zero-after-0", "leaf-pointer", "varint>=5bytes", "codec-brotli", "codec-gzip", "codec-zstd", "writer-async"] {
         ctx.rec.floor(c, 20);
@@ -313,7 +316,7 @@ pub fn replay(sub: &str, case: &Value) -> Option<CaseResult> {
         })());
     }
     match sub {
-        "random-lists" | "random-big-lists" | "regular-compressible-lists" => Some(check_case(&super::de(case)?)),
+        "random-lists" | "random-big-lists" | "regular-compressible-lists" | "list-over-65536-entries" => Some(check_case(&super::de(case)?)),
         _ => None,
     }
 }
